@@ -364,6 +364,26 @@ static void cross_tests(std::mt19937_64& rng)
         r.add(x, c, (W)v);
       }
       r.flush();
+      // (c') the same load through copy_and_verify_range and copy_and_verify on the pointer
+      for (int via = 0; via < 2; via++) {
+        RunEmitter rr;
+        rr.path = std::string(via == 0 ? "load-range/" : "load-copy_and_verify/") + abi;
+        rr.from = tdesc<G>();
+        rr.to = tdesc<T>();
+        for (W x : sparse_values<G, T>(rng, 12)) {
+          *raw = (G)x;
+          g_abort_flag = false;
+          T v;
+          if (via == 0) {
+            v = p.copy_and_verify_range([](std::unique_ptr<T[]> a) { return a ? a[0] : T{}; }, 1);
+          } else {
+            v = p.copy_and_verify([](std::unique_ptr<T> a) { return a ? *a : T{}; });
+          }
+          int c = g_abort_flag ? 1 : ((W)v == x ? 0 : 2);
+          rr.add(x, c, (W)v);
+        }
+        rr.flush();
+      }
       // (d) arrays, element-wise, both directions
       auto pa = sb.template malloc_in_sandbox<T[3]>();
       G* rawa = reinterpret_cast<G*>(pa.UNSAFE_unverified());
@@ -534,6 +554,7 @@ int main(int argc, char** argv)
     std::mt19937_64 rng(std::atoll(argv[3]));
     cross_tests<vm_abi_wasm32>(rng);
     cross_tests<vm_abi_lp16>(rng);
+    cross_tests<vm_abi_ilp64>(rng);
   } else {
     return 2;
   }
